@@ -24,9 +24,10 @@ import (
 
 type repeatCase struct {
 	Dir     string   `json:"dir"`    // working directory
-	Target  string   `json:"target"` // package pattern
+	Target  string   `json:"target"` // package pattern(s), space separated
 	Args    []string `json:"args"`
 	Repeats int      `json:"repeats"`
+	Binary  string   `json:"binary,omitempty"` // go-critic (default) or go-critic-analysis
 }
 
 func corpusTargets() []repeatCase {
@@ -58,14 +59,33 @@ func corpusTargets() []repeatCase {
 	return out
 }
 
+// multiTargets are commands over several packages at once: the command's package loop
+// and, for the go/analysis binary, the stock driver that analyses packages in parallel.
+func multiTargets() []repeatCase {
+	sim := filepath.Join(verifDir(), "sim")
+	chk := filepath.Join(repoDir(), "checkers")
+	few := "./testdata/appendAssign ./testdata/evalOrder ./testdata/dupImport ./testdata/importShadow ./testdata/hugeParam ./testdata/commentedOutCode"
+	return []repeatCase{
+		{Dir: sim, Target: "./corpus/..."},
+		{Dir: sim, Target: "./corpus/...", Binary: "go-critic-analysis"},
+		{Dir: chk, Target: few},
+		{Dir: chk, Target: few, Binary: "go-critic-analysis"},
+	}
+}
+
 func runRepeat(bi *buildInfo, rc *repeatCase) (outs []string, exits []int) {
 	gmps := []int{1, 4, 16, 2, 8, 16}
 	concs := []string{"1", "4", "200", "2", "16", "3"}
 	for k := 0; k < rc.Repeats; k++ {
-		args := append([]string{"check", "-enableAll", "-checkGenerated=true", "-concurrency=" + concs[k%len(concs)],
-			"-@ruleguard.rules=" + filepath.Join(verifDir(), "sim", "rules", "probe_*.go")}, rc.Args...)
-		args = append(args, rc.Target)
-		cmd := exec.Command(filepath.Join(bi.Dir, "frontends", "go-critic"), args...)
+		rules := "-@ruleguard.rules=" + filepath.Join(verifDir(), "sim", "rules", "probe_*.go")
+		args := append([]string{"check", "-enableAll", "-checkGenerated=true", "-concurrency=" + concs[k%len(concs)], rules}, rc.Args...)
+		bin := "go-critic"
+		if rc.Binary == "go-critic-analysis" {
+			bin = rc.Binary
+			args = append([]string{"-enable-all", rules}, rc.Args...)
+		}
+		args = append(args, strings.Fields(rc.Target)...)
+		cmd := exec.Command(filepath.Join(bi.Dir, "frontends", bin), args...)
 		cmd.Dir = rc.Dir
 		cmd.Env = append(goEnv(), fmt.Sprintf("GOMAXPROCS=%d", gmps[k%len(gmps)]))
 		var buf bytes.Buffer
@@ -104,7 +124,7 @@ func (c *checkCtx) runRepeatCases(cases []repeatCase, base int) []*simapi.RunRes
 			lines := strings.Count(outs[0], "\n")
 			r.Stats["diagnostics"] = int64(lines)
 			r.NonTrivial = lines >= 2
-			r.DecisionID = "repeat:" + rc.Target
+			r.DecisionID = "repeat:" + rc.Binary + ":" + rc.Target
 			for k := 1; k < len(outs); k++ {
 				if outs[k] != outs[0] || exits[k] != exits[0] {
 					a, b := strings.Split(outs[0], "\n"), strings.Split(outs[k], "\n")
@@ -128,8 +148,8 @@ func (c *checkCtx) runRepeatCases(cases []repeatCase, base int) []*simapi.RunRes
 					}
 					r.Verdict = "violation"
 					r.Violations = []simapi.Violation{{Class: "process-output-differs", Identity: "process-output-differs:" + checker,
-						Detail: fmt.Sprintf("`go-critic check -enableAll %s` (cwd %s): process %d of %d printed something else than process 0 (exit %d vs %d); first difference at line %d: %q vs %q; replay is statistical (the command repeated)",
-							rc.Target, rc.Dir, k, len(outs), exits[k], exits[0], j+1, short(la, 300), short(lb, 300))}}
+						Detail: fmt.Sprintf("`%s -enableAll %s` (cwd %s): process %d of %d printed something else than process 0 (exit %d vs %d); first difference at line %d: %q vs %q; replay is statistical (the command repeated)",
+							map[bool]string{true: "go-critic-analysis", false: "go-critic check"}[rc.Binary == "go-critic-analysis"], rc.Target, rc.Dir, k, len(outs), exits[k], exits[0], j+1, short(la, 300), short(lb, 300))}}
 					break
 				}
 			}
